@@ -710,7 +710,7 @@ Section Closure.
       exists i. split; [exact Hin'|]. split; [exact Pi|]. split; [reflexivity|]. split.
       + now apply find_qual_in_nodup.
       + intros NE. specialize (NI i Hin). rewrite Pi in NI. unfold qualifier. destruct (ialias i); [congruence | discriminate].
-    - destruct MI as [MI1 MI2]. rewrite D in MI1. rewrite I in MI2. subst. rewrite seqb_refl. reflexivity.
+    - destruct MI as [MI1 MI2]. rewrite D in MI1. rewrite I in MI2. rewrite MI1, MI2, seqb_refl. reflexivity.
   Qed.
 End Closure.
 
@@ -748,21 +748,141 @@ Section Guard.
   Proof.
     destruct r as [[p|] n|n]; simpl.
     - destruct (seqb p (e_dst E) && inp) eqn:S.
-      + intros -> G a. apply andb_true_iff in S as [S _]. apply seqb_eq in S. subst p.
-        repeat (apply andb_true_iff in G as [G ?]).
-        unfold resolve_name.
-        repeat match goal with H : negb ?b = true |- _ => apply negb_true_iff in H; rewrite H end.
-        rewrite H. reflexivity.
-      + intros (i & F & Pi & NE) G a. repeat (apply andb_true_iff in G as [G ?]).
-        apply negb_true_iff in G. assert (Q : qf p <> []) by (apply NE; destruct (pkg_name cx p); [discriminate | discriminate]).
+      + intros Q G a. apply andb_true_iff in S as [S _]. apply seqb_eq in S. subst p.
+        apply andb_true_iff in G as [G G4]. apply andb_true_iff in G as [G G3]. apply andb_true_iff in G as [G1 G2].
+        apply negb_true_iff in G1, G2, G3.
+        rewrite Q. unfold resolve_name. rewrite G1, G2, G3, G4. reflexivity.
+      + intros (i & F & Pi & NE) G a.
+        apply andb_true_iff in G as [G G4]. apply andb_true_iff in G as [G G3]. apply andb_true_iff in G as [G1 G2].
+        apply negb_true_iff in G1, G2, G3, G4.
+        assert (Q : qf p <> []) by (apply NE; destruct (pkg_name cx p); [discriminate G1 | discriminate]).
         unfold resolve_name. destruct (qf p) as [|c q] eqn:Eq; [congruence|].
-        repeat match goal with H : negb ?b = true |- _ => apply negb_true_iff in H; rewrite H end.
-        simpl. rewrite F, Pi. reflexivity.
-    - intros _ G a. repeat (apply andb_true_iff in G as [G ?]).
-      unfold resolve_name.
-      repeat match goal with H : negb ?b = true |- _ => apply negb_true_iff in H; rewrite H end.
-      apply negb_true_iff in G. rewrite G. reflexivity.
+        rewrite G2, G3, G4. simpl. rewrite F, Pi. reflexivity.
+    - intros _ G a.
+      apply andb_true_iff in G as [G G4]. apply andb_true_iff in G as [G G3]. apply andb_true_iff in G as [G1 G2].
+      apply negb_true_iff in G1, G2, G3, G4.
+      unfold resolve_name. rewrite G1, G2, G3, G4. reflexivity.
     - intros _ G. apply andb_true_iff in G as [G1 G2]. apply negb_true_iff in G1.
       unfold resolve_name. rewrite G1, G2. reflexivity.
   Qed.
 End Guard.
+
+Section Denote.
+  Variable cx : ctx.
+  Hypothesis TOK : tables_ok cx.
+
+  Definition file_env (dstp : str) (f : fdata) (local tps sh : list str) : env :=
+    {| e_imports := f_imports f; e_dst := dstp; e_local := local; e_tparams := tps; e_shadow := sh |}.
+
+  (* the scoping side conditions for all references of one variable's type *)
+  Definition var_guard (E : env) (inp : bool) (v : var_) : bool :=
+    forallb (ref_guard cx E inp (qual_of (vimps v))) (refs (vty v)).
+
+  Theorem denote dstp inp is local tps sh :
+    let f := gen_file cx dstp inp is in
+    let E := file_env dstp f local tps sh in
+    forall id v, In id (f_ifaces f) -> In v (ivars id) ->
+      var_guard E inp v = true ->
+      resolve_rty E (vrty v) = Some (norm (vty v)).
+  Proof.
+    intros f E id v Hid Hv G. apply resolve_render. apply Forall_forall. intros r Hr.
+    unfold var_guard in G. rewrite forallb_forall in G. specialize (G r Hr).
+    apply (ref_guard_ok cx E inp); [|exact G].
+    destruct r as [[p|] n|n]; simpl; auto.
+    pose proof (import_closure cx TOK dstp inp is) as IC. cbv zeta in IC. fold f in IC.
+    destruct IC as (_ & _ & IC). specialize (IC id v p Hid Hv (refs_imports _ _ _ Hr)).
+    unfold closed_for in IC. destruct (seqb p dstp && inp); [exact IC|].
+    destruct IC as (i & _ & Pi & Q & F & NE). exists i. rewrite Q. auto.
+  Qed.
+End Denote.
+
+(* ---------------------------------------------------------------------------------- *)
+(* Accessors                                                                           *)
+(* ---------------------------------------------------------------------------------- *)
+Lemma map_mapi_from {A B C} (F : B -> C) (G : nat -> A -> B) l : forall k,
+  map F (mapi_from k G l) = mapi_from k (fun j x => F (G j x)) l.
+Proof. induction l as [|x l IH]; intros k; simpl; [reflexivity | now rewrite IH]. Qed.
+
+Lemma mapi_from_ext {A B} (f g : nat -> A -> B) l : forall k,
+  (forall j x, nth_error l j = Some x -> f (k + j) x = g (k + j) x) -> mapi_from k f l = mapi_from k g l.
+Proof.
+  induction l as [|x l IH]; intros k H; simpl; [reflexivity|]. f_equal.
+  - specialize (H 0 x eq_refl). now rewrite Nat.add_0_r in H.
+  - apply IH. intros j y Hj. specialize (H (S j) y Hj). now rewrite <- plus_n_Sm in H.
+Qed.
+
+Lemma mapi_from_const {A B} (h : A -> B) l : forall k, mapi_from k (fun _ x => h x) l = map h l.
+Proof. induction l as [|x l IH]; intros k; simpl; [reflexivity | now rewrite IH]. Qed.
+
+(* the denotation of an element of an argument list: "...T" denotes the slice type []T *)
+Definition den_arg (E : env) (a : arg) : option ty :=
+  option_map (fun t => if a_ell a then TSlice t else t) (resolve_rty E (a_ty a)).
+
+Section Accessors.
+  Variable cx : ctx.
+  Variable E : env.
+
+  (* go/types: the type of a variadic parameter is a slice *)
+  Definition variadic_wf (d : mdata) : Prop :=
+    forall j v, nth_error (dparams d) j = Some v -> pvariadic d j = true -> exists e, vty v = TSlice e.
+
+  Definition resolves (v : var_) : Prop := resolve_rty E (vrty v) = Some (norm (vty v)).
+
+  Lemma den_elem v b :
+    resolves v -> (b = true -> exists e, vty v = TSlice e) ->
+    option_map (fun t => if b then TSlice t else t) (resolve_rty E (if b then elem_of (vrty v) else vrty v)) = Some (norm (vty v)).
+  Proof.
+    intros R W. destruct b; [|now rewrite R].
+    destruct (W eq_refl) as [e He]. unfold resolves, vrty in *. rewrite He in *. simpl in *.
+    destruct (resolve_rty E (render (qual_of (vimps v)) e)); simpl in *; congruence.
+  Qed.
+
+  Lemma den_method_arg v b : resolves v -> (b = true -> exists e, vty v = TSlice e) ->
+    den_arg E (param_method_arg v b) = Some (norm (vty v)).
+  Proof. intros R W. pose proof (den_elem v b R W) as H. unfold den_arg, param_method_arg. destruct b; exact H. Qed.
+
+  Lemma den_type_string_ellipsis v b : resolves v -> (b = true -> exists e, vty v = TSlice e) ->
+    den_arg E (param_type_string_ellipsis v b) = Some (norm (vty v)).
+  Proof. intros R W. pose proof (den_elem v b R W) as H. unfold den_arg, param_type_string_ellipsis. destruct b; exact H. Qed.
+
+  (* TypeStringVariadicUnderlying denotes the element type of a variadic parameter *)
+  Lemma den_variadic_underlying v b : resolves v -> (b = true -> exists e, vty v = TSlice e) ->
+    option_map (fun t => if b then TSlice t else t) (resolve_rty E (param_type_string_variadic_underlying v b)) = Some (norm (vty v)).
+  Proof. intros R W. exact (den_elem v b R W). Qed.
+
+  Theorem accessors_denote d :
+    Forall resolves (dvars d) -> variadic_wf d ->
+    map (den_arg E) (arg_list d) = map (fun v => Some (norm (vty v))) (dparams d) /\
+    map (den_arg E) (arg_type_list_ellipsis d) = map (fun v => Some (norm (vty v))) (dparams d) /\
+    map (resolve_rty E) (arg_type_list d) = map (fun v => Some (norm (vty v))) (dparams d) /\
+    map (resolve_rty E) (return_arg_type_list d) = map (fun v => Some (norm (vty v))) (dreturns d) /\
+    map (den_arg E) (return_arg_list d) = map (fun v => Some (norm (vty v))) (dreturns d) /\
+    map a_name (arg_list d) = map vname (dparams d) /\
+    map a_name (return_arg_list d) = map vname (dreturns d) /\
+    return_arg_name_list d = map vname (dreturns d) /\
+    map fst (arg_call_list d) = map vname (dparams d) /\
+    map a_ell (arg_list d) = mapi (fun k _ => pvariadic d k) (dparams d) /\
+    map snd (arg_call_list d) = mapi (fun k _ => pvariadic d k) (dparams d).
+  Proof.
+    intros R W. unfold dvars in R. apply Forall_app in R as [RP RR].
+    rewrite Forall_forall in RP, RR.
+    assert (PI : forall j v, nth_error (dparams d) j = Some v -> resolves v).
+    { intros j v H. apply RP. eapply nth_error_In; eauto. }
+    unfold arg_list, arg_type_list_ellipsis, arg_type_list, return_arg_type_list, return_arg_list,
+           return_arg_name_list, arg_call_list, mapi.
+    repeat split.
+    - rewrite map_mapi_from, <- (mapi_from_const (fun v => Some (norm (vty v))) (dparams d) 0).
+      apply mapi_from_ext. intros j v H. simpl. apply den_method_arg; [eapply PI; eauto | intros B; eapply W; eauto].
+    - rewrite map_mapi_from, <- (mapi_from_const (fun v => Some (norm (vty v))) (dparams d) 0).
+      apply mapi_from_ext. intros j v H. simpl. apply den_type_string_ellipsis; [eapply PI; eauto | intros B; eapply W; eauto].
+    - rewrite map_map. apply map_ext_in. intros v Hv. apply RP, Hv.
+    - rewrite map_map. apply map_ext_in. intros v Hv. apply RR, Hv.
+    - rewrite map_map. apply map_ext_in. intros v Hv. unfold den_arg; simpl. rewrite (RR v Hv). reflexivity.
+    - rewrite map_mapi_from, <- (mapi_from_const vname (dparams d) 0). apply mapi_from_ext.
+      intros j v _. unfold param_method_arg. destruct (pvariadic d (0 + j)); reflexivity.
+    - rewrite map_map. reflexivity.
+    - rewrite map_mapi_from, <- (mapi_from_const vname (dparams d) 0). apply mapi_from_ext. reflexivity.
+    - rewrite map_mapi_from. apply mapi_from_ext. intros j v _. unfold param_method_arg. destruct (pvariadic d (0 + j)); reflexivity.
+    - rewrite map_mapi_from. apply mapi_from_ext. intros j v _. reflexivity.
+  Qed.
+End Accessors.
